@@ -397,6 +397,10 @@ pub fn replay_file<P: Property>(p: &P, tier: Tier, path: &std::path::Path) -> Re
     Ok(p.run(&case, tier))
 }
 
+fn replay_signature(path: &std::path::Path) -> String {
+    std::fs::read_to_string(path).ok().and_then(|s| serde_json::from_str::<ReplayFile>(&s).ok()).map(|r| r.signature).unwrap_or_default()
+}
+
 /// Replays every committed regression input of the property. Returns a shard-like result.
 pub fn run_replays<P: Property>(p: &P, tier: Tier) -> ShardResult {
     let known = load_known();
@@ -413,8 +417,21 @@ pub fn run_replays<P: Property>(p: &P, tier: Tier) -> ShardResult {
                 // the unchanged tree by construction, so for them ANY failure is a violation — also one whose
                 // class is a recorded finding (a listed finding is identified by class *and* by the inputs on
                 // which it shows; a committed input is one on which it does not).
-                let strict = !f.file_name().map(|n| n.to_string_lossy().starts_with("new-")).unwrap_or(false);
-                let (un, li) = if strict { (out.failures.iter().collect::<Vec<_>>(), vec![]) } else { triage(&known, p.id(), &out.failures) };
+                let committed = !f.file_name().map(|n| n.to_string_lossy().starts_with("new-")).unwrap_or(false);
+                // the failure a committed input guards against: "regression-input" = any failure (hand-written
+                // inputs), otherwise failures of the recorded class (solver and kind)
+                let guarded = replay_signature(&f);
+                let head = |s: &str| s.split(':').take(2).collect::<Vec<_>>().join(":");
+                let is_strict = |x: &Failure| committed && (guarded == "regression-input" || head(&x.sig) == head(&guarded));
+                let strict = committed;
+                let (mut un, mut li) = (vec![], vec![]);
+                for x in &out.failures {
+                    if is_strict(x) || known_for(&known, p.id(), &x.sig).is_none() {
+                        un.push(x)
+                    } else {
+                        li.push(x)
+                    }
+                }
                 for x in li {
                     let e = res.known.entry(x.sig.clone()).or_insert((0, x.msg.clone()));
                     e.0 += 1;
